@@ -292,7 +292,7 @@ pub fn gen_poplar_inst(rng: &mut Rng, deep: bool) -> Inst {
     } else {
         *rng.pick(&[1u32, 2, 2, 3, 3, 4, 5, 5, 8, 8, 13, 16, 16, 32, 64, 64, 128, 256])
     };
-    Inst { class: "poplar1".into(), n: 2, proofs: 1, max: N(1), len: bits, chunk: 1, weight: 1, mt: false, named: true }
+    Inst { class: "poplar1".into(), n: 2, proofs: 1, max: N(1), len: bits, chunk: 1, weight: 1, mt: false, named: true, xof: String::new() }
 }
 
 pub fn bits_to_string(bits: &[N]) -> String {
